@@ -245,6 +245,41 @@ pub fn run(ctx: &Ctx) -> i32 {
         subs.push(all_pairs("strings-unicode-digits", &rule, &items, &show, &lib_cmp, Some(&ref_cmp), None));
     }
 
+    // the whole character domain: every Unicode scalar value (except NUL, §9) in each role a character can play
+    {
+        use vlib::par::par_fold;
+        let acc = vlib::report::Acc::merge_all(par_fold(0x11_0000, Acc::new, |cp, acc| {
+            let Some(c) = char::from_u32(cp as u32) else { return };
+            if cp == 0 {
+                return;
+            }
+            for (a, b) in [
+                (format!("1{}2", c), "1.2".to_string()),
+                (format!("1{}2", c), "12".to_string()),
+                (format!("a{}", c), "a".to_string()),
+                (format!("{}1", c), "1".to_string()),
+                (format!("1{}", c), format!("1{}{}", c, c)),
+                (format!("{}", c), String::new()),
+                (format!("1{}a", c), "1a".to_string()),
+                (format!("a{}b", c), format!("a{}c", c)),
+            ] {
+                acc.evals += 1;
+                let want = rpmvercmp(a.as_bytes(), b.as_bytes());
+                match catch(|| (Evr::new("", a.as_str(), "").cmp(&Evr::new("", b.as_str(), "")), Evr::new("", b.as_str(), "").cmp(&Evr::new("", a.as_str(), "")))) {
+                    Err(p) => acc.viol(panic_violation("unicode-scalars", &p, json!({"a": a, "b": b})).rank(cp)),
+                    Ok((ab, ba)) => {
+                        acc.nontrivial += 1;
+                        acc.count(&format!("{:?}", want));
+                        if ab != want || ba != want.reverse() {
+                            acc.viol(Violation::new("unicode-scalars", format!("cmp({:?}, {:?}) = {:?} / swapped {:?}, rpmvercmp says {:?}", a, b, ab, ba, want), json!({"a": a, "b": b, "code_point": format!("U+{:04X}", cp)})).sig("clause", "equals-reference").rank(cp));
+                        }
+                    }
+                }
+            }
+        }));
+        subs.push(SubReport::new("unicode-scalars", "A", "every Unicode scalar value except NUL (1 112 063 characters) between two digits, after a letter, in front of a digit, doubled, alone, between a digit and a letter, between letters: 8 pairs each, oracle = the rpmvercmp port (every character that is not an ASCII letter or digit, ~ or ^ is a separator, whatever Unicode says about it)", acc));
+    }
+
     // the two operands borrowed from ONE buffer: equal start address with different lengths, overlapping, adjacent
     // (every other sub-check hands over separately allocated strings)
     {
@@ -379,8 +414,9 @@ pub fn run(ctx: &Ctx) -> i32 {
     ));
 
     // NEVRA: name, EVR, arch; equal ⇒ Equal; total preorder
-    let names = ["a", "a-b", "b", "a1"];
-    let archs = ["x", "noarch"];
+    // incl. names and architectures that are different texts but equal for rpm's comparison ("a-b" / "a_b", "a1" / "a01", "x" / "x.")
+    let names = ["a", "a-b", "a_b", "b", "a1", "a01"];
+    let archs = ["x", "x.", "noarch"];
     let nv = all_strings(&["1", "a", "~"], 2);
     let mut nevras: Vec<(String, String, String, String, String)> = vec![];
     for n in names {
@@ -406,7 +442,7 @@ pub fn run(ctx: &Ctx) -> i32 {
     let n_show = |a: &N| json!({"name": a.0, "epoch": a.1, "version": a.2, "release": a.3, "arch": a.4});
     subs.push(all_pairs(
         "nevra",
-        &format!("all ordered pairs of {} NEVRAs (4 names × 3 epochs × {} versions × 2 releases × 2 arches); oracle = name, EVR, arch in that order with the port; == ⇒ Equal", nevras.len(), nv.len()),
+        &format!("all ordered pairs of {} NEVRAs (6 names × 3 epochs × {} versions × 2 releases × 3 arches; some names and architectures are different texts that rpm's comparison calls equal, so the later components decide); oracle = name, EVR, arch in that order with the port; == ⇒ Equal", nevras.len(), nv.len()),
         &nevras,
         &n_show,
         &n_lib,
